@@ -15,6 +15,7 @@ import (
 	"os"
 	"path/filepath"
 	"strings"
+	"unicode"
 	"unicode/utf8"
 
 	"github.com/google/osv-scalibr/semantic"
@@ -108,7 +109,12 @@ func observeParse(eco, s string) (p parsed) {
 	return parsed{status: "ok", obj: m, raw: js}
 }
 
-// the model's approximation of strings.ToLower: ASCII letters; invalid UTF-8 -> U+FFFD when non-ASCII present
+// lowerLimit mirrors gen_unicode_lower_limit of Semantic/Generated_Tables.v: the model maps case below it
+// (ASCII + the toolchain's unicode.ToLower table for U+0080..U+052F) and leaves higher code points unchanged.
+const lowerLimit = 0x530
+
+// modelLower is the Coq model's strings.ToLower, re-implemented here only to decide which inputs lie outside the
+// modelled alphabet (those are kept out of the correspondence and counted).
 func modelLower(s string) string {
 	ascii := true
 	b := []byte(s)
@@ -124,10 +130,34 @@ func modelLower(s string) string {
 		return string(b)
 	}
 	var sb strings.Builder
-	for _, r := range string(b) { // invalid bytes come out as U+FFFD
+	for _, r := range s { // invalid bytes come out as U+FFFD
+		if r < lowerLimit {
+			r = unicode.ToLower(r)
+		}
 		sb.WriteRune(r)
 	}
 	return sb.String()
+}
+
+// caseSweep: every code point of U+0080..U+052F, eight per string, so that the model's case table is compared
+// with Go's on each run (parse correspondence for Maven / PyPI, comparison for NuGet)
+func caseSweep(prefix string) []string {
+	var out []string
+	var sb strings.Builder
+	n := 0
+	for r := rune(0x80); r < lowerLimit; r++ {
+		sb.WriteRune(r)
+		n++
+		if n == 8 {
+			out = append(out, prefix+sb.String())
+			sb.Reset()
+			n = 0
+		}
+	}
+	if n > 0 {
+		out = append(out, prefix+sb.String())
+	}
+	return out
 }
 
 // ---------------------------------------------------------------- Coq printing helpers
@@ -289,6 +319,15 @@ func buildShard(e ecoDef, k int, r *rand.Rand, fixtures []string, pool, extra, n
 	}
 	// --- canonical-rule cases: published chains (fixed) + rule-constructed pairs (fresh per shard)
 	rcs := append(publishedChains(e.kind), ruleCases(e.kind, g, nrules)...)
+	if kinds[e.kind].lowers && k == 0 {
+		prefix := map[string]string{"nuget": "1.0.0-", "maven": "1-", "pypi": "1.0-"}[e.kind]
+		for _, s := range caseSweep(prefix) {
+			sh.add(s) // table only: parse correspondence
+			if e.kind == "nuget" {
+				rcs = append(rcs, ruleCase{s, strings.ToLower(s), "Eq", "NuGet: pre-release labels are case-insensitive (Unicode case sweep U+0080..U+052F)"})
+			}
+		}
+	}
 	for _, rc := range rcs {
 		sh.rules = append(sh.rules, ruleIdx{i: sh.add(rc.a), j: sh.add(rc.b), expect: rc.expect, rule: rc.rule})
 	}
